@@ -556,7 +556,8 @@ class C13Check(Check):
             "run index -, 1-3 parties sharing the metric object, interleaved call schedule with mid-stream construction "
             "and observation); non-trivial = at least one loss evaluation judged; distinct = digest of the metric-seam log")
     assumptions = ["river's own update/revert are trusted to be inverse up to rounding (values compared to 1e-9 relative)",
-                   "value domains are chosen per metric family; a pair the fresh metric itself rejects aborts the run"]
+                   "value domains are chosen per metric family; a pair whose update the fresh metric itself rejects aborts the run; a "
+                   "pair it accepts but cannot report (get raises) is passed on and must leave the shared metric untouched"]
 
     # violations that hinge on object identities (address reuse) depend on the heap of the interpreter that runs them
     replay_attempts = 3
